@@ -54,6 +54,8 @@ def _mk():
     S["parray_after_loop"] = hdr + parr("p1", "float", 2) + ["for int i in [%(m)s, %(m)s]", "    Dgate(%(f)s) | i", "Rgate(p1, k=p1) | %(m)s", "for int j in 0:2", "    Vac | j", "Sgate(p1) | %(m)s"]
     S["plain_array_like_parray"] = hdr + parr("p0", "float", 2) + parr("B", "float", 2) + parr("p1", "int", 2) + parr("C", "int", 2) + ["Rgate(p0) | %(m)s", "Rgate(B, k=C) | %(m)s", "Gate(C, p1) | %(m)s"]
     S["parray_first_then_scalar_same_stmt"] = hdr + parr("p0", "float", 2) + ["float y = %(f)s", "Gate(p0, y, k=y, j=p0) | %(m)s"]
+    # a bare p (no digits) is an ordinary name
+    S["bare_p_is_plain"] = hdr + parr("p", "float", 2) + parr("p0", "int", 2) + ["float q = %(f)s", "Gate(p, p0, k=p) | %(m)s", "Rgate(q, j=p0) | %(m)s"]
     # not tdm: the same names are ordinary arrays, passed by value
     nothdr = ["name plain", "version 1.0", ""]
     S["not_tdm"] = nothdr + parr("p0", "float", 2) + ["Rgate(p0) | %(m)s"]
